@@ -24,6 +24,7 @@ EXPLANATION = (
     "from a public function is a numpy.random global-state function or an sklearn estimator drawing from it; time flows only through "
     "the tic/toc timer. C14.7: returned objects/arrays alias no argument. Not decided: numerical grid values, reproducibility of "
     "third-party code given the seed.")
+EXPLANATION += (" Added after the audit wave: C14.4 clean() builds its delete list by NAME from the instance dictionary; a filter on the attribute's value (e.g. `not callable`) lets functions, classes and signal objects survive.")
 TRUSTED = ["numpy/scipy/sklearn copy-vs-view and randomness semantics as summarised in ocv/effects.py", "sklearn KMeans(random_state=None) draws from numpy's global RandomState", "CPython ast"]
 
 GV_CLASS = "global_variables"
@@ -271,6 +272,13 @@ def rule_clean(ctx):
             if isinstance(cv, TupleV) and cv.items and all(isinstance(e, Const) and isinstance(e.v, str) for e in cv.items):
                 lst = {e.v for e in cv.items}
                 lnode = n
+    # which custom attributes go is a matter of their NAME only: a filter on the value (`not callable(getattr(gv, attr))`, meant to skip
+    # methods when listing dir()) keeps every custom attribute that holds a function, a class or a signal object
+    by_value = [n for n in scope if isinstance(n, ast.Call) and isinstance(n.func, ast.Name) and n.func.id in ("callable", "isinstance", "type", "hasattr")
+                and any(isinstance(x, ast.Call) and isinstance(x.func, ast.Name) and x.func.id == "getattr" for a_ in n.args for x in ast.walk(a_))]
+    ctx.check("C14.4", not by_value, clean, by_value[0] if by_value else clean.node, "clean(): custom attributes selected by name", "every attribute that is not a default is deleted",
+              f"the attributes to delete are filtered by their value (`{src_of(by_value[0]) if by_value else ''}`): a custom attribute holding a callable (np.hanning, a dtype, an "
+              "electrical_signal) survives clean()")
     if not dels or lst is None:
         ctx.violation("C14.4", clean, clean.node, "clean(): custom attributes", "custom attributes are not deleted by clean()")
     else:
